@@ -240,27 +240,46 @@ pub fn certified_prime(rng: &mut StdRng, bits: u32, filter: &dyn Fn(&Uint) -> bo
     }
 }
 
-/// Pool of certified primes keyed by bit size; emits each certificate once.
+/// Self-contained certificate of the last prime of a chain, checked by spec/lib/Certs.tla
+/// (`ChainOK`): a JSON array, first element {"ps": small prime < 2^31} (trial division in the spec),
+/// then Pocklington steps {"p","q","a"} with q the previous element's prime.
+pub fn chain_value(chain: &[CertPrime]) -> Value {
+    let mut v = vec![];
+    for c in chain {
+        match &c.q {
+            None => v.push(json!({"ps": c.p.digits()[0], "p": dn(&c.p)})),
+            Some(q) => v.push(json!({"p": dn(&c.p), "q": dn(q), "a": c.a})),
+        }
+    }
+    Value::from(v)
+}
+
+/// Pool of certified primes; remembers the certificate chain of every prime it handed out.
 pub struct Pool {
     pub rng: StdRng,
-    pub emitted: std::collections::HashSet<Uint>,
+    pub chains: std::collections::HashMap<Uint, Value>,
 }
 
 impl Pool {
     pub fn new(seed: u64) -> Pool {
-        Pool { rng: rng_for(seed, "pool"), emitted: Default::default() }
+        Pool { rng: rng_for(seed, "pool"), chains: Default::default() }
     }
-    /// returns a certified prime and pushes the certificate events that have not been emitted yet
-    pub fn prime(&mut self, bits: u32, certs: &mut Vec<Value>) -> Uint {
-        self.prime_with(bits, &|_| true, certs)
+    /// a certified prime of exactly `bits` bits
+    pub fn prime(&mut self, bits: u32) -> Uint {
+        self.prime_with(bits, &|_| true)
     }
-    pub fn prime_with(&mut self, bits: u32, filter: &dyn Fn(&Uint) -> bool, certs: &mut Vec<Value>) -> Uint {
+    pub fn prime_with(&mut self, bits: u32, filter: &dyn Fn(&Uint) -> bool) -> Uint {
         let chain = certified_prime(&mut self.rng, bits, filter);
-        for c in &chain {
-            if self.emitted.insert(c.p) {
-                certs.push(c.cert_event());
-            }
-        }
-        chain.last().unwrap().p
+        let p = chain.last().unwrap().p;
+        self.chains.entry(p).or_insert_with(|| chain_value(&chain));
+        p
+    }
+    /// certificate chain (JSON) of a prime handed out earlier; None for anything else
+    pub fn chain_of(&self, p: &Uint) -> Option<Value> {
+        self.chains.get(p).cloned()
+    }
+    /// certificate for a small prime (< 2^31) given directly
+    pub fn small_chain(p: u64) -> Value {
+        json!([{"ps": p, "p": crate::trace::du(p)}])
     }
 }
